@@ -34,6 +34,17 @@ def run_case(c):
         R.append(call("is_valid_key", i, lambda: keys.is_valid_key(k), boolean))
         R.append(call("get_key_signature", i, lambda: keys.get_key_signature(k), integer))
         R.append(call("get_key_signature_accidentals", i, lambda: keys.get_key_signature_accidentals(k), names))
+        # the caller edits the list it was handed and asks again (the answer is about the key, not about the caller)
+        def again():
+            a = keys.get_key_signature_accidentals(k)
+            a.sort(); a.append("X"); a[:] = a[1:]
+            return keys.get_key_signature_accidentals(k)
+        R.append(call("get_key_signature_accidentals", dict(i, asked="again after the caller edited the first answer"), again, names))
+        def again_notes():
+            a = keys.get_notes(k)
+            a.reverse(); a.pop()
+            return [list(keys.get_notes(k)), list(keys.get_notes(k))]
+        R.append(call("get_notes", dict(i, asked="again after the caller edited the first answer"), again_notes, lambda o: [names(o[0]), names(o[1])]))
         R.append(call("get_notes", i, lambda: [list(keys.get_notes(k)), list(keys.get_notes(k))], lambda o: [names(o[0]), names(o[1])]))
         R.append(call("relative_major", i, lambda: keys.relative_major(k), nm))
         R.append(call("relative_minor", i, lambda: keys.relative_minor(k), nm))
